@@ -174,7 +174,7 @@ class C19(Property):
     )
     assumptions = (
         "failures after validation (other exception classes) are not judged here, only counted",
-        "a static output is only combined with static or pull-type inputs directly (time adapters on static data are outside the domain)",
+        "below a static output only pass-through adapters are placed (time adapters on static data are outside the domain)",
     )
     cases = {"quick": 12000, "thorough": 1000000}
     min_nontrivial = {"quick": 4000, "thorough": 200000}
@@ -202,17 +202,18 @@ class C19(Property):
                 continue
             oi = rnd.randrange(len(outputs))
             parent = ("out", oi)
-            if outputs[oi]["kind"] == "static":
-                x["parent"] = parent  # direct only
-                continue
-            depth = rnd.choice([0, 0, 1, 1, 2, 3, 4])
+            is_static = outputs[oi]["kind"] == "static"
+            # below a static output only pass-through adapters (time adapters on static data are outside the domain)
+            depth = rnd.choice([0, 0, 1, 2]) if is_static else rnd.choice([0, 0, 1, 1, 2, 3, 4])
+            if is_static and depth:
+                x["static_chain"] = depth
             for _ in range(depth):
                 # reuse an existing child adapter of this parent (-> fan-out deeper) or create one
                 kids = [j for j, nd in enumerate(nodes) if nd["parent"] == parent]
                 if kids and rnd.random() < 0.5:
                     parent = ("node", rnd.choice(kids))
                 else:
-                    nodes.append(dict(kind=rnd.choice(["scale", "scale", "lin", "next", "dfix", "dpull", "dpush"]), parent=parent))
+                    nodes.append(dict(kind="scale" if is_static else rnd.choice(["scale", "scale", "lin", "next", "dfix", "dpull", "dpush"]), parent=parent))
                     parent = ("node", len(nodes) - 1)
             x["parent"] = parent
         listed = list(comps)
@@ -227,6 +228,8 @@ class C19(Property):
         out = Outcome()
         out.sample = spec
         reasons = reference(spec)
+        if any(x.get("static_chain") for x in spec["inputs"]):
+            out.count("static_outputs_followed_by_adapters")
         prods, conss = {}, {}
         for name in spec["comps"]:
             if name.startswith("P"):
@@ -380,7 +383,7 @@ class C19(Property):
 
     def coverage_gaps(self, counters, tier):
         need = ["expected_rejections", "expected_valid", "connected", "link_lists_compared", "reason_unconnected_input",
-                "reason_static_input_nonstatic_output", "reason_missing_component", "reason_branching", "reason_dead_link", "reconnect_attempts_after_refusal", "dangling_adapters_completed_after_refusal"]
+                "static_outputs_followed_by_adapters", "reason_static_input_nonstatic_output", "reason_missing_component", "reason_branching", "reason_dead_link", "reconnect_attempts_after_refusal", "dangling_adapters_completed_after_refusal"]
         return [f"{k} never observed" for k in need if not counters.get(k)]
 
 
